@@ -79,8 +79,8 @@ K("ab.exif_new", ["C10", "C01"], "jxl-oxide", _AB, _ABM, "exif_new_contract",
   "bounded:Exif payloads of 0, 3, 4, 5 and 6 bytes, all byte values", ["RawExif::new", "RawExif::tiff_header_offset", "RawExif::payload"],
   "Ok iff len >= 4 and the big-endian u32 offset < len - 4; then tiff_header_offset() is that value and payload() the bytes after it; no panic")
 K("ab.refeed_after_failed_finalisation", ["C01"], "jxl-oxide", _AB, _ABM, "refeed_after_failed_finalisation",
-  "bounded:the one history AuxBoxStart{Exif, brotli_compressed: true}; AuxBoxEnd(Exif) -> Err; AuxBoxStart{xml, brotli_compressed: false}",
-  ["AuxBoxList::handle_event", "AuxBoxList::finalize", "AuxBoxReader::ensure_brotli", "AuxBoxReader::finalize", "AuxBoxReader::ensure_raw"],
-  "ASSUMED: the external Brotli stream decoder, given no input, asks for more input (kani::stub of BrotliDecompressStream; the native run shows the same). "
-  "ensures every handle_event call returns Ok or Err. EXPECTED TO FAIL on the unrepaired tree: the failed finalisation leaves current_box = (Brotli, not done) and the next plain "
-  "AuxBoxStart reaches ensure_raw's panic!() (aux_box.rs:59); native reproduction through JxlImage::feed_bytes with a 33-byte file: module header", timeout=900)
+  "bounded:the one state left by the history AuxBoxStart{Exif, brotli_compressed: true}; AuxBoxEnd(Exif) -> Err (current_box = fresh Brotli writer, not done), next event AuxBoxStart{xml, plain}",
+  ["AuxBoxList::handle_event", "AuxBoxReader::ensure_raw"],
+  "after a failed finalisation the next box start returns Ok or Err, it does not panic. FAILS on the unrepaired tree: ensure_raw reaches panic!() (aux_box.rs:59). "
+  "That the state is reachable is shown natively (real Brotli decoder), through JxlImage::feed_bytes with a 33-byte file: findings/c01_auxbox_refeed",
+  timeout=900, unwindset=[(r"HuffmanCode>::extend_with", 1082)])
